@@ -468,7 +468,8 @@ where
             self.refs.set(id, XRef::Raw { pos: pos as _, gen_nr: gen });
             writeln!(self.backend, "{} {} obj", id, gen)?;
             primitive.serialize(&mut self.backend)?;
-            writeln!(self.backend, "endobj")?;
+            // the object may end in a regular character (`5`, `/Name`, `R`, `true`): white-space before the keyword
+            writeln!(self.backend, "\nendobj")?;
         }
 
         let xref_pos = self.backend.len() - self.start_offset;
